@@ -77,6 +77,13 @@ Lemma in_range_signed_iff b v :
   in_range true b v <-> (- 2 ^ Z.of_N (b - 1) <= v < 2 ^ Z.of_N (b - 1))%Z.
 Proof. unfold in_range. rewrite int_min_eq, int_max_eq. lia. Qed.
 
+Lemma in_rangeb_meaning signed bits v :
+  in_rangeb signed bits v = true <->
+  if signed then (- 2 ^ Z.of_N (bits - 1) <= v < 2 ^ Z.of_N (bits - 1))%Z else (0 <= v < 2 ^ Z.of_N bits)%Z.
+Proof.
+  rewrite in_rangeb_spec. destruct signed; [apply in_range_signed_iff | apply in_range_unsigned_iff].
+Qed.
+
 Lemma in_range_u64 n : n < 2 ^ 64 -> in_range false 64 (Z.of_N n).
 Proof.
   intros H. apply in_range_unsigned_iff.
